@@ -325,6 +325,8 @@ class Executor:
         h = t[0]
         if h in ("const", "param", "func", "lambda", "kindcls", "modvar", "glob", "obs", "bound", "methodcaller", "attrgetter", "partial"):
             return True
+        if h in ("free", "arg") and not top:
+            return True        # a reference to another variable, inside an expression (last_branch = n - 1)
         if h in ("binop", "unop", "cmp", "boolop", "not", "ifexp", "fstr"):
             return all(self._immutable(x) for x in t[1:] if isinstance(x, tuple))
         if h == "attr":
